@@ -27,7 +27,7 @@ PROPS = {
         'partial': "i64 boundary (D10) excluded by hypothesis; cache-level lifting (every cache step touches the policy only through these operations) is checked by the cache-level correspondence of C06",
     },
     'C07': {
-        'suites': [('policy', 600, 6000, '')],
+        'suites': [('policy', 600, 6000, ''), ('cachet', 200, 2000, ''), ('caches', 150, 1500, '')],
         'rule': "same policy-level histories as C01, with popularity planted through TinyLFU increments so that ties, strict minima and 'incoming strictly less' occur; every loop iteration's sample, chosen minimum, index, cost and room as reported by the add-only observer hook are compared with the model, and the refill is checked for legality; non-trivial = at least one loop iteration",
         'assumptions': COMMON_ASSUMPTIONS + ["hash-map iteration order is an oracle reported by the implementation and checked for legality by the model; theorems hold for every legal oracle"],
         'partial': "",
@@ -51,7 +51,7 @@ PROPS = {
         'partial': "",
     },
     'C05': {
-        'suites': [('cacheq', 300, 3000, ''), ('cachet', 150, 1500, ''), ('cacheqa', 100, 1000, ''), ('cacher', 150, 1500, ''), ('ticker', 1, 1, '')],
+        'suites': [('cacheq', 300, 3000, ''), ('cachet', 150, 1500, ''), ('cacheqa', 100, 1000, ''), ('cacher', 150, 1500, ''), ('ticker', 1, 1, ''), ('caches', 150, 1500, '')],
         'rule': CACHE_RULE % "Cache and AsyncCache" + "ticks at arbitrary (late, irregular) virtual times, expiry instants around second boundaries, neighbours in the same bucket being updated / removed / re-TTL'd; monitors: after a tick at T nothing with bucket <= T is resident, only expired entries are swept, each swept value is reported once with its charged cost",
         'assumptions': COMMON_ASSUMPTIONS + ["the real ticker (crossbeam tick / async-io Timer) firing is runtime behaviour: ticks are labels here"],
         'partial': "the real-time firing of the ticker ('plus one cleanup interval') is not modelled: ticks are labels; the listing invariant and the reclamation theorems are proved for collision-free runs (every conflict hash 0); an item written before a cleanup, already due at it and admitted only afterwards is reclaimed by the next cleanup (hypothesis no_stale_admission of C05_listings_stay_later_than_the_last_cleanup)",
@@ -81,7 +81,7 @@ PROPS = {
         'partial': "async flavour: close() returns once the stop message is buffered; that the processor then takes it needs fairness of select! (the theorem is: exited or the stop message is pending); OS thread exit and the exit of workers when every handle is dropped without close() are runtime behaviour (observed by the harness: suite defaults drops every handle of both flavours without close() and waits for both workers' exit notes), not theorems",
     },
     'C16': {
-        'suites': [('cachet', 400, 4000, ''), ('cacheqa', 150, 1500, ''), ('defaults', 1, 1, '')],
+        'suites': [('cachet', 400, 4000, ''), ('cacheqa', 150, 1500, ''), ('defaults', 1, 1, ''), ('caches', 150, 1500, '')],
         'rule': CACHE_RULE % "Cache and AsyncCache" + "explicit costs including 0, costers {0, v mod 5 + 1, 7}, both ignore_internal_cost settings (item_size read through the facade), evictions, rejections, sweeps; monitors: charge of a resident value = cost (or coster) + overhead, callback costs equal that",
         'assumptions': COMMON_ASSUMPTIONS + ["quiescence between writes to one key (the property's quantifier); a vetoed plain insert still re-charges the key (upstream behaviour, outside the quantifier)"],
         'partial': "",
